@@ -80,6 +80,8 @@ fixed("F3", "C11", "magnitude of a negative on-resistance", "PMux(rs<0) / Rectif
       ["C11.Stored", "C11.Normalises", "C11.PassiveNoGain", "C11.LossNonNeg", "C11.EffLe100"])
 fixed("F21", "C19", "make_hdiag tolerates a loss that is negative", "make_hdiag() raised ValueError (RGBA range) when a component reports a loss that is negative by a rounding error (0 Ohm switch / mux)",
       ["C19.Renders"])
+fixed("F22", "C16", "does not wire a PMux twice", "del_comp(<mux input>, del_childs=False) whose parent already is an input of the mux (by name or by rail) left two references to "
+      "the same component in the mux's input list and a parallel edge in the graph (drawn twice by make_diag)", ["C16.NoAuxAnomaly", "C16.SameAsFresh.Diag", "C14.WF.ParentRefs"])
 
 json.dump({"_comment": "open = genuine defect recorded, not repaired (suppresses exactly the matching violations); "
                        "fixed = repaired by the named fix: commit in /repo (suppresses nothing)", "findings": F},
